@@ -10,7 +10,7 @@ for id in "$@"; do
   git -C $WT checkout -q -- . ; git -C $WT clean -fdq -e target
   if ! git -C $WT apply $S/patch.diff; then echo "$id: patch does not apply"; continue; fi
   t=$(cd $WT && cargo test --workspace --no-fail-fast --offline 2>&1 | grep -E "^test result|FAILED|failed|^error")
-  nfail=$(echo "$t" | grep -cE "FAILED|failed|^error")
+  nfail=$(echo "$t" | grep -cE "FAILED|[1-9][0-9]* failed|^error")
   npass=$(echo "$t" | grep -E "^test result" | sed 's/.*ok\. \([0-9]*\) passed.*/\1/' | paste -sd+ | bc)
   (cd $S/demo && sh ./run.sh $WT > $S/confirm_changed.txt 2>&1); rc_changed=$?
   (cd $S/demo && sh ./run.sh $CL > $S/confirm_clean.txt 2>&1); rc_clean=$?
